@@ -13,7 +13,7 @@ EX_TECH = ("TLA+ spec of the exchange (ExchangeCore/ExchangeProps/Exchange.tla) 
            "replayed into the real Exchange; TLC trace validation (ExchangeTrace.tla) of every recorded implementation trace")
 EX_NOTE = ("Trusted: TLC; the projection Decimal->integer units (fails clause Obs_Grid when not integral); the runner that drives the "
            "real Exchange inside a real BacktestingDispatcher. Small-scope exhaustiveness for the model; implementation coverage is "
-           "seeded-random beyond it. Price-impact constant 0 (exact arithmetic); interest periods are powers of two ticks.")
+           "seeded-random beyond it. Price-impact constant 0 (exact arithmetic); interest periods are 0 (flat interest) or powers of two ticks. Traces whose amounts would overflow TLC's 32-bit integers are cut or set aside and counted in the evidence.")
 
 
 def ex(text, ref):
